@@ -33,3 +33,8 @@ chk("C08", "model_checking",
     "All (ancestor depth) x (own branch kind sequences) x (fork kind sequences over empty / proposed / with-tx / kill / offline-switch blocks) x 7 tip certificate shapes x 3 interior certificate policies x tampering (wrong root, missing height) up to the length bound. Oracles: accepted => every block valid on a reference replica, tip certified, identity-update blocks certified; adoption == reference (head, roots, validator view, canonical hashes, stored identity diffs, tx index, abandoned headers gone); reverted tx list exact; refusal leaves the database untouched; panics are violations.",
     "Committee {V1,V2,P} (threshold 2) on a G2 chain; certificates signed with the fixed keys; quorum arithmetic itself is C07's subject.",
     "DESIGN.md 5/C08", "enum+replica")
+chk("C11", "model_checking",
+    "explicit-state BFS over histories incl. reorganisations with diff-replaying followers; exhaustive single-fault corruption of snapshot archives",
+    "(a) All histories up to the depth bound over 19 actions (identity events, epoch macro, 8 reorganisation actions). After every transition a follower holding only the genesis identity state replays every diff the node serves (GetIdentityDiff) exactly like protocol/fast.go, for the restarted node and for a never-restarted node that went through the reorgs; identity root per height and the resulting validator view must match. (b) WriteTreeTo2/ReadTreeFrom2 round trip (root, contents, byte-identical re-export) for every explored state and synthetic trees around SnapshotBlockSize. (c) every single-bit flip, byte substitution and truncation of small archives and every member drop/duplicate/swap of multi-member ones: accepted => advertised root and contents, refused => empty target, never panic/hang.",
+    "Crash model for (c) is single-fault; multi-fault corruptions are outside the bound.",
+    "DESIGN.md 5/C11", "chainmc+enum")
